@@ -84,6 +84,148 @@ func c33cacheHandout(f *core.FuncInfo, sel *ast.SelectorExpr) (bool, string) {
 	return false, "neither a reset of every cache to nil nor reachable only from Close"
 }
 
+// c33underConstruction: does the assignment to the roots cache at sel (`x.cache.FrameRoots = …`) equip
+// a store that this function has just created and not yet published? Then it is part of the
+// construction (where the initialisation is spelled — in a helper or in the constructor itself — does
+// not matter): nothing can have been registered in, or read from, that object's cache yet. Decided as:
+// x is a local of f defined once by `&T{…}` / `T{…}` / `new(T)`, not captured by a nested literal; the
+// assignment is not in a loop; and every mention of x from which the assignment can be reached is a
+// field selection, or the receiver of a plain (not go/defer) call of a module method from which no use
+// of the cache and no go statement is reachable. Any other mention (argument, return, store, send)
+// publishes the object and must not precede the assignment.
+func c33underConstruction(f *core.FuncInfo, sel *ast.SelectorExpr) bool {
+	if f == nil || f.Body == nil || sel == nil {
+		return false
+	}
+	e := ast.Unparen(sel.X)
+	for {
+		s, ok := e.(*ast.SelectorExpr)
+		if !ok {
+			break
+		}
+		e = ast.Unparen(s.X)
+	}
+	rootID, ok := e.(*ast.Ident)
+	if !ok {
+		return false
+	}
+	v, _ := f.Info().ObjectOf(rootID).(*types.Var)
+	if v == nil || v.IsField() || !(f.Body.Pos() <= v.Pos() && v.Pos() < f.Body.End()) {
+		return false
+	}
+	d := c33singleDef(f, v)
+	if d == nil || d.RHS == nil {
+		return false
+	}
+	init := ast.Unparen(d.RHS)
+	if u, isU := init.(*ast.UnaryExpr); isU && u.Op == token.AND {
+		init = ast.Unparen(u.X)
+	}
+	switch x := init.(type) {
+	case *ast.CompositeLit:
+	case *ast.CallExpr:
+		if isCallTo(f, x, "builtin.new") == nil {
+			return false
+		}
+	default:
+		return false
+	}
+	at, ok := f.PointOf(sel)
+	if !ok || at.B == nil || f.CanReach(at, at) {
+		return false
+	}
+	defID, _ := ast.Unparen(d.LHS).(*ast.Ident)
+	callOf := map[ast.Expr]*core.CallSite{}
+	for _, cs := range f.Calls() {
+		callOf[ast.Unparen(cs.Call.Fun)] = cs
+	}
+	own := map[*ast.Ident]bool{}
+	good := true
+	var stack []ast.Node
+	quiet := map[*core.FuncInfo]bool{}
+	isQuiet := func(h *core.FuncInfo) bool {
+		if q, done := quiet[h]; done {
+			return q
+		}
+		q := true
+		for _, g := range core.ReachableFuncs(f.P, []*core.FuncInfo{h}, false) {
+			g.InspectAll(func(n ast.Node) bool {
+				switch x := n.(type) {
+				case *ast.GoStmt:
+					q = false
+				case *ast.SelectorExpr:
+					if nm := fieldNameOf(g, x); nm == c33Cache || nm == c33CacheSt {
+						q = false
+					}
+				}
+				return q
+			})
+			if !q {
+				break
+			}
+		}
+		quiet[h] = q
+		return q
+	}
+	f.InspectOwn(func(n ast.Node) bool {
+		if n == nil {
+			stack = stack[:len(stack)-1]
+			return true
+		}
+		stack = append(stack, n)
+		id, isID := n.(*ast.Ident)
+		if !isID || f.Info().ObjectOf(id) != v {
+			return true
+		}
+		own[id] = true
+		if id == defID || !good {
+			return true
+		}
+		// the nearest enclosing node that is not a parenthesis
+		k := len(stack) - 2
+		for k >= 0 {
+			if _, isP := stack[k].(*ast.ParenExpr); !isP {
+				break
+			}
+			k--
+		}
+		if k >= 0 {
+			if ps, isSel := stack[k].(*ast.SelectorExpr); isSel && ast.Unparen(ps.X) == ast.Expr(id) {
+				if s, has := f.Info().Selections[ps]; has {
+					switch s.Kind() {
+					case types.FieldVal:
+						return true
+					case types.MethodVal:
+						if cs := callOf[ps]; cs != nil && !cs.InGo && !cs.InDefer {
+							if fn, isF := cs.Callee.(*types.Func); isF {
+								if h := f.P.FuncOf(fn); h != nil && isQuiet(h) {
+									return true
+								}
+							}
+						}
+					}
+				}
+			}
+		}
+		pt, has := f.PointOf(id)
+		if !has || pt.B == nil || pt == at || f.CanReach(pt, at) {
+			good = false
+		}
+		return true
+	})
+	if !good {
+		return false
+	}
+	// not mentioned by a nested literal
+	f.InspectAll(func(n ast.Node) bool {
+		if id, isID := n.(*ast.Ident); isID && f.Info().ObjectOf(id) == v && !own[id] {
+			good = false
+		}
+		return good
+	})
+	return good
+}
+
 // ---------------------------------------------------------------------------
 // C33.cache: the weighted LRU keeps what addRoot/GetFrameRoots rely on
 
